@@ -142,6 +142,7 @@ type scenario struct {
 	recd2        int // PUBRECs the broker has sent
 	wscript    []writeAns // when non-empty: the fate of the next writes
 	noFaults   bool       // suspend random faults (scripted parts of a history)
+	sscript    []bool     // scripted outcomes of the next Persistence operations
 	inject     [][]byte   // broker packets to deliver next, before anything else
 }
 
@@ -507,6 +508,7 @@ type hist struct {
 	// a write failed outside the read routine: the write semaphore is pending while
 	// Online is still released; lockWrite spins until ReadSlices notices
 	writeFailed bool
+	sawDial     bool
 	wasClosed   bool
 	broken      bool // a call hung or panicked: stop using this client
 	pendingOp   string
@@ -610,6 +612,9 @@ func (h *hist) record(op string, ret string) {
 		if e.Kind == "write" && e.Ans != wOk {
 			h.writeFailed = true
 		}
+		if e.Kind == "dial" {
+			h.sawDial = true
+		}
 	}
 }
 
@@ -661,6 +666,7 @@ func (h *hist) doRead() {
 	h.sc.forceDialFail = h.lockParked()
 	h.bigMsg = nil
 	h.pendingOp = "OpRead"
+	h.sawDial = false
 	var msg, topic []byte
 	err := safely(func() (e error) { msg, topic, e = h.client.ReadSlices(); return })
 	h.sc.forceDialFail = false
@@ -680,7 +686,13 @@ func (h *hist) doRead() {
 			h.readBackoff(err)
 		}
 	}
-	h.writeFailed = false
+	// a failed write of another request leaves the write semaphore pending with Online still
+	// released until ReadSlices goes offline; a ReadSlices that returned earlier (Persistence
+	// error in the acknowledgement flush) has not done that yet, and a request issued now would
+	// spin in lockWrite for as long as this sequential history does not call ReadSlices again
+	if !h.online() || h.sawDial || h.closed {
+		h.writeFailed = false
+	}
 }
 
 // readBackoff measures what ReadBackoff hands out, in virtual time.
@@ -847,7 +859,14 @@ func newHist(r *rng, o seqOpts, stats map[string]int) (h *hist, initTerm string,
 		}
 		return &simConn{onRead: sc.onRead, onWrite: sc.onWrite}, true
 	}}
-	h.store.onOp = func(kind string, key uint) bool { return !sc.noFaults && r.intn(1000) < o.storeFaults }
+	h.store.onOp = func(kind string, key uint) bool {
+		if len(sc.sscript) != 0 { // scripted outcomes of the next Persistence operations (true = fail)
+			f := sc.sscript[0]
+			sc.sscript = sc.sscript[1:]
+			return f
+		}
+		return !sc.noFaults && r.intn(1000) < sc.opts.storeFaults
+	}
 	h.cfg = mqtt.Config{Dialer: h.dialer.dial, AtLeastOnceMax: o.max1, ExactlyOnceMax: o.max2, CleanSession: o.clean, KeepAlive: uint16(r.intn(3) * 30)}
 	if o.pause {
 		h.cfg.PauseTimeout = time.Second
@@ -934,7 +953,34 @@ func runHistory(r *rng, o seqOpts, stats map[string]int) (term string, nontrivia
 		return t, false, nil
 	}
 	h.randomOps(r, o)
+	if r.chance(1, 2) {
+		h.goodSuffix()
+	}
 	return h.finish(o)
+}
+
+// goodSuffix ends the history with a benign environment: after the marker (a quit for a
+// request number that does not exist: a no-op) dials succeed, nothing fails, the broker
+// acknowledges everything and sends nothing of its own, and ReadSlices is called six more
+// times. The checkers then demand that every accepted transfer completed and that every
+// waiting request returned (HistChecks.settled_exchanges / settled_requests).
+func (h *hist) goodSuffix() {
+	if h.closed || h.broken || h.wasClosed {
+		return
+	}
+	sc := h.sc
+	sc.noFaults = true
+	sc.opts.faultRate, sc.opts.lossRate, sc.opts.storeFaults = 0, 0, 0
+	sc.opts.hostile = false
+	sc.dropComp = false
+	sc.budgetIn = 0
+	sc.inject, sc.wscript = nil, nil
+	h.store.onOp = nil
+	h.stats["good-suffix"]++
+	h.record("OpQuit 1000000", "RetErr 0")
+	for i := 0; i < 6 && !h.broken && !h.closed; i++ {
+		h.doRead()
+	}
 }
 
 func (h *hist) publish(retain bool, msg []byte, topic string) {
@@ -1152,6 +1198,21 @@ func randomGen(mk func(r *rng, i int) seqOpts) histGen {
 	}
 }
 
+// bubble runs f in a synctest bubble. When f returns while goroutines of the client under test
+// are still blocked for good (a wedged call the watchdogs already recorded), synctest panics
+// with a deadlock report in this goroutine: the case is complete by then, the wedged
+// goroutines are left behind and the run goes on.
+func bubble(f func()) {
+	defer func() {
+		if r := recover(); r != nil {
+			bubbleDeadlocks.Add(1)
+		}
+	}()
+	synctest.Test(theT, func(t *testing.T) { f() })
+}
+
+var bubbleDeadlocks atomic.Int64
+
 // runGen generates n histories, each inside its own synctest bubble.
 func runGen(prop, module, runFn string, seed uint64, n int, gen histGen, out string, shard int) error {
 	cs := newCaseSet(prop, module, "histcase", runFn)
@@ -1195,9 +1256,7 @@ func runGen(prop, module, runFn string, seed uint64, n int, gen histGen, out str
 		var term string
 		var nontriv bool
 		var desc map[string]any
-		synctest.Test(theT, func(t *testing.T) {
-			term, nontriv, desc = gen(i, hr, stats)
-		})
+		bubble(func() { term, nontriv, desc = gen(i, hr, stats) })
 		if desc == nil {
 			desc = map[string]any{"kind": "init-failed"}
 		}
